@@ -181,20 +181,70 @@ func addrInfoForms(id peer.ID, addrs []ma.Multiaddr) string {
 	return ""
 }
 
+// embedsKey: the reference rule for "an ID that embeds its key" - an identity multihash
+// (code 0x00) whose digest is the marshalled key. Independent of any local setting.
+func embedsKey(id peer.ID, marshalledKey []byte) bool {
+	return id == refIDSetting(marshalledKey, true) && len(marshalledKey) <= 42
+}
+
+// recoverKey checks the clause "the key is recoverable from IDs that embed it" for id,
+// an ID of the key k: recovered exactly when embedded, whatever the local setting.
+func recoverKey(k *kp, id peer.ID) string {
+	ex, err := id.ExtractPublicKey()
+	if embedsKey(id, k.pubM) {
+		if err != nil {
+			return fmt.Sprintf("ExtractPublicKey from the ID %s that embeds the key: %v", id, err)
+		}
+		if m, _ := ic.MarshalPublicKey(ex); !bytes.Equal(m, k.pubM) || !ex.Equals(k.pub) {
+			return fmt.Sprintf("ExtractPublicKey from the ID %s returned another key", id)
+		}
+		return ""
+	}
+	if err == nil {
+		return fmt.Sprintf("ExtractPublicKey returned a key (%v) from the ID %s that does not embed one", ex, id)
+	}
+	return ""
+}
+
+// viaForm sends the ID through one serialized form and decodes it again: an ID received
+// from a remote peer, not one derived in this process.
+func viaForm(id peer.ID, form string) (peer.ID, error) {
+	raw := idForm(id, form)
+	var out peer.ID
+	var err error
+	switch form {
+	case "binary":
+		out, err = peer.IDFromBytes(raw)
+	case "json":
+		err = json.Unmarshal(raw, &out)
+	case "addrinfo-json":
+		var ai peer.AddrInfo
+		err = json.Unmarshal(raw, &ai)
+		out = ai.ID
+	default:
+		out, err = peer.Decode(string(raw))
+	}
+	return out, err
+}
+
 func TestPeerID(t *testing.T) {
 	name := t.Name()
 	hx.Check(t, 2000, 60000, 0, func(rt *rapid.T) {
-		peer.AdvancedEnableInlining = true // the documented default; process-global
+		// configuration dimension: the process-global option is the documented default (on)
+		// or off; put back at the end of the case
+		inl := drawInlining(rt)
+		defer setInlining(inl)()
 		k := drawKey(rt, "k")
 		o := drawKey(rt, "other")
 		addrs := drawAddrs(rt, "addrs", 0)
+		form := rapid.SampledFrom(idFormNames).Draw(rt, "remote-form")
 
 		id, err := peer.IDFromPublicKey(k.pub)
 		if err != nil {
 			rt.Fatalf("IDFromPublicKey: %v", err)
 		}
-		if want := refID(k.pubM); id != want {
-			rt.Fatalf("%s: IDFromPublicKey = %x, reference definition gives %x (marshalled key has %d bytes)", k.tag, id, want, len(k.pubM))
+		if want := refIDSetting(k.pubM, inl); id != want {
+			rt.Fatalf("%s, %s: IDFromPublicKey = %x, reference definition gives %x (marshalled key has %d bytes)", k.tag, inlLabel(inl), id, want, len(k.pubM))
 		}
 		// deterministic: same ID through every route to the same key
 		if again, _ := peer.IDFromPublicKey(k.pub); again != id {
@@ -210,41 +260,49 @@ func TestPeerID(t *testing.T) {
 		if viaWire, err := peer.IDFromPublicKey(rk); err != nil || viaWire != id {
 			rt.Fatalf("%s: ID of the unmarshalled key = %x, %v", k.tag, viaWire, err)
 		}
-		if s := idForms(id, true); s != "" {
-			rt.Fatalf("%s id %x: %s", k.tag, id, s)
-		}
-		if s := addrInfoForms(id, addrs); s != "" {
-			rt.Fatalf("%s id %s: %s", k.tag, id, s)
-		}
-		// key recoverable from IDs that embed it
-		ex, err := id.ExtractPublicKey()
-		embedded := len(k.pubM) <= 42
-		if embedded {
-			if err != nil {
-				rt.Fatalf("%s: ExtractPublicKey from an inlined ID: %v", k.tag, err)
-			}
-			if m, _ := ic.MarshalPublicKey(ex); !bytes.Equal(m, k.pubM) || !ex.Equals(k.pub) {
-				rt.Fatalf("%s: ExtractPublicKey returned another key", k.tag)
-			}
-		} else if err == nil {
-			rt.Fatalf("%s: ExtractPublicKey returned a key (%v) from an ID that does not embed one", k.tag, ex)
-		}
 		if !id.MatchesPublicKey(k.pub) || !id.MatchesPrivateKey(k.priv) {
-			rt.Fatalf("%s: ID does not match its own key", k.tag)
+			rt.Fatalf("%s, %s: ID does not match its own key", k.tag, inlLabel(inl))
 		}
 		differs := !bytes.Equal(o.pubM, k.pubM)
-		if differs {
-			if id.MatchesPublicKey(o.pub) || id.MatchesPrivateKey(o.priv) || o.id == id {
-				rt.Fatalf("ID of %s matches another key %s", k.tag, o.tag)
+		// The IDs of this key: the one derived here and the ones a peer running with either
+		// setting derives for it (k.id is one of them). All are valid IDs here: every form
+		// round-trips, and the key comes back from exactly those that embed it - the option
+		// governs how IDs are derived locally, not what a received ID contains.
+		embedded := false
+		for i, x := range []peer.ID{id, refIDSetting(k.pubM, true), refIDSetting(k.pubM, false)} {
+			if i > 0 {
+				// received from the remote peer in a drawn serialized form
+				got, err := viaForm(x, form)
+				if err != nil || got != x {
+					rt.Fatalf("%s, %s: ID %s sent as %s decodes to %x, %v", k.tag, inlLabel(inl), x, form, got, err)
+				}
+				x = got
+			}
+			if s := idForms(x, true); s != "" {
+				rt.Fatalf("%s, %s, id %x: %s", k.tag, inlLabel(inl), x, s)
+			}
+			if s := addrInfoForms(x, addrs); s != "" {
+				rt.Fatalf("%s, %s, id %s: %s", k.tag, inlLabel(inl), x, s)
+			}
+			if s := recoverKey(k, x); s != "" {
+				rt.Fatalf("%s, %s: %s", k.tag, inlLabel(inl), s)
+			}
+			embedded = embedded || embedsKey(x, k.pubM)
+			if differs && (x.MatchesPublicKey(o.pub) || x.MatchesPrivateKey(o.priv) || o.id == x) {
+				rt.Fatalf("%s: ID %s of %s matches another key %s", inlLabel(inl), x, k.tag, o.tag)
 			}
 		}
 		emb := "hashed"
-		if embedded {
+		if embedsKey(id, k.pubM) {
 			emb = "inlined"
 		}
-		stats.Case(name, fp(k.tag, o.tag, fmt.Sprint(addrs)), differs, k.typ, classLabel(k.cls), emb)
+		labels := []string{k.typ, classLabel(k.cls), emb, inlLabel(inl)}
+		if !inl && embedded {
+			labels = append(labels, "inlining:off+remote-id-embeds-key", "remote-form:"+form)
+		}
+		stats.Case(name, fp(k.tag, o.tag, fmt.Sprint(addrs), inl, form), differs, labels...)
 		if stats.WantSample(name) {
-			stats.Sample(name, map[string]any{"key": k.tag, "id": id.String(), "cid": peer.ToCid(id).String(), "other": o.tag})
+			stats.Sample(name, map[string]any{"key": k.tag, "inlining": inl, "id": id.String(), "cid": peer.ToCid(id).String(), "other": o.tag})
 		}
 	})
 }
@@ -261,35 +319,41 @@ func (f *fakePub) Raw() ([]byte, error)             { return f.raw, nil }
 func (f *fakePub) Type() cpb.KeyType                { return f.typ }
 func (f *fakePub) Verify(_, _ []byte) (bool, error) { return false, nil }
 
-// TestPeerIDThreshold enumerates marshalled key lengths across the inlining threshold.
+// TestPeerIDThreshold enumerates marshalled key lengths across the inlining threshold,
+// under both values of the configuration option.
 func TestPeerIDThreshold(t *testing.T) {
 	hx.Shard0(t)
 	name := t.Name()
-	peer.AdvancedEnableInlining = true
 	seen := map[int]bool{}
-	for _, typ := range []cpb.KeyType{cpb.KeyType_RSA, cpb.KeyType_Ed25519, cpb.KeyType_Secp256k1, cpb.KeyType_ECDSA} {
-		for l := 0; l <= 140; l++ {
-			f := &fakePub{typ, expand(fmt.Sprintf("fake/%d/%d", typ, l), l)}
-			m, err := ic.MarshalPublicKey(f)
-			if err != nil {
-				t.Fatal(err)
+	for _, inl := range []bool{true, false} {
+		defer setInlining(inl)() // put back when the test returns (also on failure)
+		for _, typ := range []cpb.KeyType{cpb.KeyType_RSA, cpb.KeyType_Ed25519, cpb.KeyType_Secp256k1, cpb.KeyType_ECDSA} {
+			for l := 0; l <= 140; l++ {
+				f := &fakePub{typ, expand(fmt.Sprintf("fake/%d/%d", typ, l), l)}
+				m, err := ic.MarshalPublicKey(f)
+				if err != nil {
+					t.Fatal(err)
+				}
+				id, err := peer.IDFromPublicKey(f)
+				if err != nil {
+					t.Fatalf("IDFromPublicKey(raw len %d): %v", l, err)
+				}
+				if want := refIDSetting(m, inl); id != want {
+					t.Fatalf("marshalled key of %d bytes, %s: IDFromPublicKey = %x, reference definition (identity iff inlining is on and <= 42 bytes, else sha2-256) = %x", len(m), inlLabel(inl), id, want)
+				}
+				// the ID a peer with the other setting derives is as valid here
+				for _, x := range []peer.ID{id, refIDSetting(m, !inl)} {
+					if s := idForms(x, true); s != "" {
+						t.Fatalf("marshalled key of %d bytes, %s, id %x: %s", len(m), inlLabel(inl), x, s)
+					}
+				}
+				seen[len(m)] = true
+				cls := "len>42"
+				if len(m) <= 42 {
+					cls = "len<=42"
+				}
+				stats.CaseEnumerated(name, true, cls, inlLabel(inl))
 			}
-			id, err := peer.IDFromPublicKey(f)
-			if err != nil {
-				t.Fatalf("IDFromPublicKey(raw len %d): %v", l, err)
-			}
-			if want := refID(m); id != want {
-				t.Fatalf("marshalled key of %d bytes: IDFromPublicKey = %x, reference definition (identity iff <= 42 bytes, else sha2-256) = %x", len(m), id, want)
-			}
-			if s := idForms(id, true); s != "" {
-				t.Fatalf("marshalled key of %d bytes, id %x: %s", len(m), id, s)
-			}
-			seen[len(m)] = true
-			cls := "len>42"
-			if len(m) <= 42 {
-				cls = "len<=42"
-			}
-			stats.CaseEnumerated(name, true, cls)
 		}
 	}
 	for _, l := range []int{40, 41, 42, 43, 44} {
@@ -315,8 +379,14 @@ func acceptedID(k *kp, id peer.ID) string {
 	if msg := idForms(id, b58); msg != "" {
 		return msg
 	}
-	if id.MatchesPublicKey(k.pub) != (id == k.id) {
-		return fmt.Sprintf("MatchesPublicKey(%s) = %v for ID %x (key's ID is %x)", k.tag, id.MatchesPublicKey(k.pub), id, k.id)
+	// the ID this process derives for the key under its current setting (reference definition)
+	own := refIDSetting(k.pubM, peer.AdvancedEnableInlining)
+	if id.MatchesPublicKey(k.pub) != (id == own) {
+		return fmt.Sprintf("MatchesPublicKey(%s) = %v for ID %x (key's ID is %x)", k.tag, id.MatchesPublicKey(k.pub), id, own)
+	}
+	if embedsKey(id, k.pubM) || id == refIDSetting(k.pubM, false) {
+		// the mutation led back to an ID of the key: recoverable iff embedded, under any setting
+		return recoverKey(k, id)
 	}
 	_, _ = id.ExtractPublicKey() // must not panic
 	return ""
@@ -411,10 +481,13 @@ func formAlphabet(form string) string {
 func TestPeerIDMutation(t *testing.T) {
 	name := t.Name()
 	hx.Check(t, 4000, 120000, 0, func(rt *rapid.T) {
-		peer.AdvancedEnableInlining = true
+		// configuration dimension: the local setting, and the setting of the peer that derived the ID
+		inl := drawInlining(rt)
+		defer setInlining(inl)()
 		k := drawKey(rt, "k")
 		form := rapid.SampledFrom(idFormNames).Draw(rt, "form")
-		orig := idForm(k.id, form)
+		src := refIDSetting(k.pubM, drawInliningOf(rt, "creator-setting"))
+		orig := idForm(src, form)
 		n := rapid.IntRange(1, 8).Draw(rt, "nmut")
 		for i := 0; i < n; i++ {
 			var mu mutation
@@ -426,8 +499,8 @@ func TestPeerIDMutation(t *testing.T) {
 					lo, hi = 1, len(orig)-2
 				}
 				if form == "addrinfo-json" {
-					lo = bytes.Index(orig, []byte(k.id.String()))
-					hi = lo + len(k.id.String()) - 1
+					lo = bytes.Index(orig, []byte(src.String()))
+					hi = lo + len(src.String()) - 1
 				}
 				pos := rapid.IntRange(lo, hi).Draw(rt, "cpos")
 				ch := alpha[rapid.IntRange(0, len(alpha)-1).Draw(rt, "ch")]
@@ -442,17 +515,21 @@ func TestPeerIDMutation(t *testing.T) {
 			}
 			acc, id, fail := judgeIDCandidate(k, form, mu.out)
 			if fail != "" {
-				rt.Fatalf("%s id %s form %s, candidate [%s] %q / %x: %s", k.tag, k.id, form, mu.desc, mu.out, mu.out, fail)
+				rt.Fatalf("%s id %s (%s) form %s, candidate [%s] %q / %x: %s", k.tag, src, inlLabel(inl), form, mu.desc, mu.out, mu.out, fail)
 			}
 			verdict := "refused"
-			if acc && id == k.id {
+			if acc && id == src {
 				verdict = "accepted-same-id"
 			} else if acc {
 				verdict = "accepted-other-id"
 			}
-			stats.Case(name, fp(k.tag, form, mu.out), !bytes.Equal(mu.out, orig), k.typ, "form:"+form, "op:"+mu.op, verdict)
+			labels := []string{k.typ, "form:" + form, "op:" + mu.op, verdict, inlLabel(inl)}
+			if embedsKey(src, k.pubM) {
+				labels = append(labels, inlLabel(inl)+"/id-embeds-key")
+			}
+			stats.Case(name, fp(k.tag, form, mu.out, inl), !bytes.Equal(mu.out, orig), labels...)
 			if stats.WantSample(name) {
-				stats.Sample(name, map[string]any{"key": k.tag, "form": form, "mutation": mu.desc, "verdict": verdict})
+				stats.Sample(name, map[string]any{"key": k.tag, "inlining": inl, "id": src.String(), "form": form, "mutation": mu.desc, "verdict": verdict})
 			}
 		}
 	})
@@ -462,7 +539,7 @@ func TestPeerIDMutation(t *testing.T) {
 // every alphabet character of the text forms, every truncation, for one ID per key type.
 func TestPeerIDEveryPosition(t *testing.T) {
 	name := t.Name()
-	peer.AdvancedEnableInlining = true
+	defer setInlining(true)() // the sweep runs under the documented default
 	idx := 0
 	for ti, typ := range sweepTypes(hx.Pick(1, 3)) {
 		k := freshKey(typ, uint64(777+ti))
